@@ -7,3 +7,5 @@ import Iggy.Props.C07
 #print axioms Iggy.Props.C07.purge_clears
 #print axioms Iggy.Props.C07.survives
 #print axioms Iggy.Props.C07.next_after_stored
+#print axioms Iggy.Props.C07.l1_offsets_refine
+#print axioms Iggy.Props.C07.l1_survive_restart
